@@ -147,3 +147,17 @@ CHECKS["C20"] = {
     "note": TRUST + " d=2 quick, 3 thorough. loop.create_server is a socket-less fake; _run_app is stopped by cancelling its task; reverse order is judged per application; "
             "'at once' = within 6 loop passes; the clock never advances while callbacks are queued in the shutdown section.",
 }
+
+CHECKS["C13"] = {
+    "engine": "SCHED",
+    "design_ref": "§3 C13, §2.1-2.3",
+    "technique": "deviation-bounded exhaustive schedule exploration of real server and client WebSocket sessions against a scripted peer under virtual time",
+    "text": "About 230 scenarios = side (server WebSocketResponse behind a real RequestHandler / ClientSession.ws_connect over the in-memory connector) x 6 option "
+            "sets (autoclose, autoping, heartbeat, receive timeout) x 11 peer scripts (closes first, data then close, echoes our close, never answers, FIN "
+            "without close, unknown opcode, bad UTF-8, close then more data, partial frame then FIN, ping flood) x who closes (receiver / another task, plus a "
+            "concurrent sender), and chatty-peer timelines; every schedule with <= d deviations over peer frames, FIN, reset, application close/send, cancellation "
+            "and timers is run to quiescence past every timeout.  Judged: nobody blocked in receive()/close()/send, close() within its timeout, at most one CLOSE "
+            "frame and no data frame after it, closed session => closed transport, close code = peer's code / 1006 where the cause is unambiguous.",
+    "note": TRUST + " d=2 quick, 3 thorough. Close timeout 10 s, receive timeout 7 s, heartbeat 6 s of virtual time (1 s grace); the clock never advances while callbacks "
+            "are queued; the close-code clause is only judged when the decisive peer event met a settled session and no timer option or cancellation took part.",
+}
